@@ -808,6 +808,12 @@ class R:
         if not d.is_real():
             raise SymLeak("order comparison of complex numbers")
         lz = _eng.cur().lazy_cmp(self, R.lift(o), op)
+        if lz is None and d.d is None and REG.sqrt_def and any(e < 0 and v in REG.sqrt_def for m in d.n for v, e in m):
+            # a sqrt variable in a denominator is positive (the division forked on it being zero): multiplying the
+            # difference by its powers keeps the sign and removes the division from the query
+            d = R(_clear_neg_sqrt(d.n))
+            if d.is_const():
+                return op(_const_val(d.n)[0], 0)
         res = lz if lz is not None else _mkB(op(d.z3()[0], z3.RealVal(0)))
         o2 = R.lift(o)
         if isinstance(res, B) and o2 is not None and o2.is_const() and self.d is None:
